@@ -32,6 +32,9 @@ pub struct Built<M> {
 	pub mand: usize,
 	/// `(offset of a big-endian u16 length/count prefix, end offset of what it governs)`
 	pub prefixes: Vec<(usize, usize)>,
+	/// offsets of u16 byte-length prefixes governing a sequence of self-delimiting records with no
+	/// free-form remainder: a value one smaller makes the last record straddle the boundary
+	pub strict: Vec<usize>,
 	/// `(offset, value)`: writing `value` there must make decoding fail (bool/enum/key-prefix bytes)
 	pub bad: Vec<(usize, u8)>,
 	/// nested length-prefixed regions outside the TLV stream, `[start, end)`
@@ -40,10 +43,16 @@ pub struct Built<M> {
 
 impl<M> Built<M> {
 	fn new(m: M, mand: usize) -> Self {
-		Built { m, mand, prefixes: vec![], bad: vec![], nested: vec![] }
+		Built { m, mand, prefixes: vec![], strict: vec![], bad: vec![], nested: vec![] }
 	}
 	fn prefix(mut self, off: usize, end: usize) -> Self {
 		self.prefixes.push((off, end));
+		self
+	}
+	fn strict(mut self, off: usize, yes: bool) -> Self {
+		if yes {
+			self.strict.push(off);
+		}
 		self
 	}
 	fn bad(mut self, off: usize, v: u8) -> Self {
@@ -718,7 +727,8 @@ node!(NodeAnnouncementN, NodeAnnouncement, Tail::Excess, [], |g| {
 		},
 	};
 	let alo = 64 + 2 + fl + 4 + 33 + 3 + 32;
-	Ok(Built::new(m, alo + 2 + al).prefix(64, 66 + fl).prefix(alo, alo + 2 + al))
+	let strict = !m.contents.addresses.is_empty() && m.contents.excess_address_data.is_empty();
+	Ok(Built::new(m, alo + 2 + al).prefix(64, 66 + fl).prefix(alo, alo + 2 + al).strict(alo, strict))
 }, excess: |m| &mut m.contents.excess_data);
 
 node!(ChannelUpdateN, ChannelUpdate, Tail::Excess, [], |g| {
